@@ -266,9 +266,11 @@ func decodeABIDynamicArrayBytes(ctx context.Context, breadcrumbs string, block [
 	}
 	dataOffset += 32
 	dataStart := dataOffset
+	// The count comes from the data and is not yet validated against it, so the children are appended as they
+	// are decoded rather than allocated up front (a count word of 2^32-1 in a 64 byte input must not allocate 32GiB)
 	cv = &ComponentValue{
 		Component: component,
-		Children:  make([]*ComponentValue, arrayLength),
+		Children:  []*ComponentValue{},
 	}
 	for i := 0; i < arrayLength; i++ {
 		childHeadBytes, child, err := decodeABIElement(ctx, fmt.Sprintf("%s[dyn,i:%d,b:%d]", breadcrumbs, i, dataOffset),
@@ -276,7 +278,7 @@ func decodeABIDynamicArrayBytes(ctx context.Context, breadcrumbs string, block [
 		if err != nil {
 			return nil, err
 		}
-		cv.Children[i] = child
+		cv.Children = append(cv.Children, child)
 		dataOffset += childHeadBytes
 	}
 	return cv, err
